@@ -1,20 +1,53 @@
 import TabulaModel.Model.Encoding
 import TabulaModel.Model.CMap
+import TabulaModel.Model.GlyphNames
 /-!
 # `(*font.Font).DecodeString` (font/font.go) and the font-less path of
 `(*text.Extractor).showText` (text/extractor.go)
 
-Priority: ToUnicode CMap, else UTF-16 byte-order mark, else the named encoding, else the raw
-bytes (made valid UTF-8 by the C07 fix). `NormalizeUnicode` (x/text NFC) is the parameter
-`nfc`; the harness supplies its results.
+Priority: ToUnicode CMap, else UTF-16 byte-order mark, else the named encoding under the
+font's `/Differences` (fix b3a0e07: `Font.Differences`, consulted code by code before the base
+encoding through `CustomEncoding`), else the raw bytes (made valid UTF-8 by the C07 fix).
+`NormalizeUnicode` (x/text NFC) is the parameter `nfc`; the harness supplies its results.
+`preNFCOld` / `decodeStringOld` keep the code before b3a0e07 (the named encoding alone).
 -/
 namespace Tabula.FontDecode
 open Tabula.UTF16 Tabula.Encoding Tabula.CMap
 
-/-- the two fields of `font.Font` that `DecodeString` reads -/
+/-- `Font.Differences` (`map[byte]rune`) as the history of its assignments, newest first:
+`(code, some r)` is `differences[code] = r`, `(code, none)` is `delete(differences, code)`.
+The Go map holds, for a code, what the newest entry for that code says. -/
+abbrev Diffs := List (Nat × Option Nat)
+
+/-- `r, ok := differences[b]` -/
+def diffLookup (ds : Diffs) (b : Nat) : Option Nat :=
+  match ds.find? (fun e => e.1 == b) with
+  | some e => e.2
+  | none => none
+
+/-- the three fields of `font.Font` that `DecodeString` reads -/
 structure Font where
   toUnicode : Option CMap
   encoding : List Nat
+  differences : Diffs
+
+/-- `(*CustomEncoding).Decode(b)` over the base table `t`: the difference if the map has the
+code, otherwise `base.Decode(b)` -/
+def customDecodeByte (ds : Diffs) (t : Array Nat) (b : Nat) : Option Nat :=
+  match diffLookup ds b with
+  | some r => some r
+  | none => t[b]?
+
+/-- `(*CustomEncoding).DecodeString` of `NewCustomEncoding(base, differences)`: rune 0 means
+"unmapped" and is skipped, `string(runes)` maps a non-scalar rune to U+FFFD. `DecodeString` of
+font.go builds the custom encoding only when the map is non-empty; with an empty map
+`customDecodeByte` is the base table's entry, so the shortcut is not visible
+(`decodeWith_nil`). -/
+def decodeWith (ds : Diffs) (t : Array Nat) (data : List Nat) : List Nat :=
+  data.filterMap fun b =>
+    match customDecodeByte ds t b with
+    | some r => if r ≠ 0 then some (toRune r) else none
+    | none => none
 
 /-- which branch of `DecodeString` is taken -/
 inductive Path | toUnicode | bomBE | bomLE | named | raw
@@ -39,12 +72,29 @@ def preNFC (f : Font) (data : List Nat) : Option (List Nat) :=
     | 0xFE :: 0xFF :: rest => some (decodeUTF16BE rest)
     | 0xFF :: 0xFE :: rest => some (decodeUTF16LE rest)
     | _ =>
-      if f.encoding ≠ [] then (getEncoding f.encoding).map fun e => Encoding.decodeString e.table data
+      if f.encoding ≠ [] then (getEncoding f.encoding).map fun e => decodeWith f.differences e.table data
       else some (toValidUTF8 data)
 
 /-- `(*Font).DecodeString` -/
 def decodeString (nfc : List Nat → List Nat) (f : Font) (data : List Nat) : Option (List Nat) :=
   (preNFC f data).map nfc
+
+/-- `DecodeString` before fix b3a0e07: the named encoding alone, whatever `/Differences` said
+(the font constructors did not keep them) -/
+def preNFCOld (f : Font) (data : List Nat) : Option (List Nat) :=
+  match f.toUnicode with
+  | some cm => some (lookupString cm data)
+  | none =>
+    match data with
+    | 0xFE :: 0xFF :: rest => some (decodeUTF16BE rest)
+    | 0xFF :: 0xFE :: rest => some (decodeUTF16LE rest)
+    | _ =>
+      if f.encoding ≠ [] then (getEncoding f.encoding).map fun e => Encoding.decodeString e.table data
+      else some (toValidUTF8 data)
+
+/-- … and normalised -/
+def decodeStringOld (nfc : List Nat → List Nat) (f : Font) (data : List Nat) : Option (List Nat) :=
+  (preNFCOld f data).map nfc
 
 /-- `showText` when no font is registered under the current name: the bytes as text, made
 valid UTF-8 (the fix), before normalisation -/
